@@ -41,6 +41,7 @@ func analyzeCmd(args []string) {
 	initEmbedded := fs.Bool("init-embedded", false, "call checkers.InitEmbeddedRules first (what the CLI mains do; the analysis mains do not)")
 	tests := fs.Bool("tests", true, "load test variants")
 	repeat := fs.Int("repeat", 1, "run the analysis this many times in the same process (re-entering the analyzer)")
+	work := fs.String("work", "", "record the work loop of every pass (NDJSON, AnalyzerWork.tla) and write <file>.refs with fresh per-variant verdicts")
 	fs.Parse(args)
 
 	if *initEmbedded {
@@ -77,6 +78,10 @@ func analyzeCmd(args []string) {
 		}
 	}
 	fset := token.NewFileSet()
+	var wr *workRec
+	if *work != "" {
+		wr = newWorkRec(fset, *work)
+	}
 	cfg := &packages.Config{Mode: packages.LoadAllSyntax, Tests: *tests, Fset: fset, Dir: *dir,
 		Env: append(os.Environ(), "GOFLAGS=-mod=mod", "GOPROXY=off", "GOSUMDB=off", "GOTOOLCHAIN=local")}
 	pkgs, err := packages.Load(cfg, strings.Split(*pats, ",")...)
@@ -103,6 +108,9 @@ func analyzeCmd(args []string) {
 			if err != nil {
 				run["analyze_error"] = err.Error()
 				return
+			}
+			if wr != nil {
+				wr.finish(g)
 			}
 			var diags []diagJSON
 			var errs []string
